@@ -27,7 +27,7 @@ package socket
 //@       header[3] == byteof(crc8(header[4], header[5], header[6], header[7], header[8], header[9], header[10], header[11]), 0)
 
 //@ func parseHeader
-//@   prop C12 C09
+//@   prop C12 C09 C13
 //@   nopanic
 //@   modifies nothing
 //@   let stored = header[0] * 16777216 + header[1] * 65536 + header[2] * 256 + header[3]
